@@ -78,8 +78,8 @@ CHECKS = {
         'calls the real closure) are executed symbolically from MIR: for 0..N rows with every assignment of group keys and symbolic sizes z3 decides that the emitted '
         'rows are exactly one per distinct key with the COUNT and SUM of that block, sorted by key or by count (asc / desc) when ORDER BY is given.',
    note=TRUST + 'Bounds: 0..3 (quick) / 0..4 (thorough) rows, key values from a 3-entry table (the empty key doubles as "column absent"), one grouping key, '
-        'aggregates COUNT and SUM. HashMap iteration order is unspecified: rows are compared as a set unless ORDER BY is present. parse_group_by and the '
-        'grouping values written by check_file are not covered here (parser: C10 driver).',
+        'aggregates COUNT and SUM. HashMap iteration order is unspecified: rows are compared as a set unless ORDER BY is present. The grouping key of `group by <column>` is decided '
+        'to parse to the plain column (whole real Parser::parse, six key columns, with and without WHERE); the grouping values written by check_file are not covered.',
    technique=TECH),
  'C17': dict(
    level='model_checking', design_ref='DESIGN.md §5 C17',
@@ -185,6 +185,17 @@ CHECKS = {
    note=TRUST + 'The library routines themselves (to_lowercase, trim, replace, powf, ln, base64, human_time, wana_kana) are uninterpreted: the claim is which routine is applied to '
         'which argument in which order. Outside: BIN / HEX / OCT rendering (radix format directives), INITCAP, TO/FROM_BASE64, FORMAT_TIME rendering, YEAR/MONTH/DAY/DOW, '
         'composition through get_function_value (argument evaluation order), SUBSTR position 0 and positions beyond the string (not specified by the statement).',
+   technique=TECH),
+ 'C11': dict(
+   level='model_checking', design_ref='DESIGN.md §5 C11',
+   text='Real MIR, z3: (alias) Op::from / ArithmeticOp::from / Field::from_str / Function::from_str / OutputFormat::from on a symbolic choice of alias-group member and letter '
+        'case (TableSym lifting: z3 decides which spellings reach which result): every member of a documented group — the tables of the statement plus the multi-name rows of '
+        'docs/usage.md — yields one value; (lexer_words) the real Lexer::next_lexem on every operator / arithmetic / keyword word in four letter cases, in context: lexed as the kind '
+        'of its group; (lexer_pairs) pairs of spellings of one query (round vs curly brackets, one argument vs shell words, upper case, explicit asc): identical lexem sequences; '
+        '(parse_pairs) the real Parser::parse on pairs of lexem vectors (optional select, commas, bracket kind, letter case of `group`, option aliases, operator aliases, '
+        '`not like` vs `notlike`): structurally equal queries.',
+   note=TRUST + 'The two lexer families execute the lexer MIR on concrete words / queries (no symbolic input there: a finite list, stated in the evidence); invariance under every '
+        'whitespace split point set and every case mask is therefore covered only for the listed spellings. DATE_ALIKE_REGEX.captures evaluated with Python re on concrete text.',
    technique=TECH),
 }
 REASON_TODO = 'check not built yet in this session (planned: see DESIGN.md §5); not claimed until it exists'
